@@ -37,6 +37,29 @@ def has_set(v):
     return False
 
 
+def only_none_vs_default(a, b):
+    """True iff a and b (same model class) differ ONLY at positions where a holds None and b holds the non-None default that
+    the field declares (recursively through nested models and lists)."""
+    from pydantic import BaseModel
+    found = [False]
+
+    def same(x, y):
+        if isinstance(x, BaseModel) and isinstance(y, BaseModel) and type(x) is type(y):
+            for fname, f in type(x).__fields__.items():
+                vx, vy = x.__dict__.get(fname), y.__dict__.get(fname)
+                if vx is None and vy is not None and f.default is not None and vy == f.default:
+                    found[0] = True
+                    continue
+                if not same(vx, vy):
+                    return False
+            return True
+        if isinstance(x, (list, tuple)) and isinstance(y, (list, tuple)) and len(x) == len(y):
+            return all(same(p, q) for p, q in zip(x, y))
+        return x == y
+
+    return same(a, b) and found[0]
+
+
 def nel_fold(x):
     """x with every U+0085 in every string replaced by a space (what the YAML reader makes of it)."""
     if isinstance(x, str):
@@ -100,6 +123,10 @@ def check_instance(cls, obj, acc, tmp: Path, origin, consts=None):
         if back != obj:
             diff = [k for k in obj.__dict__ if obj.__dict__.get(k) != back.__dict__.get(k)]
             k = diff[0] if diff else "?"
+            if only_none_vs_default(obj, back):
+                # one mechanism, recorded as known finding: an explicit None for an optional field that declares a non-None default
+                # is omitted from every output form (None is never written) and comes back as that default
+                return "KNOWN:explicit-none-vs-default", f"{name}.{k}: {obj.__dict__.get(k)!r} became {back.__dict__.get(k)!r} via {form}"
             if form in ("yaml", "yaml-file") and "\\u0085" in j and nel_fold(obj.dict()) == nel_fold(back.dict()) :
                 # one mechanism, recorded as known finding: U+0085 (NEL) is written raw into the YAML text and read back as a line
                 # break, i.e. folded into a space; everything else of the instance is equal
